@@ -57,12 +57,16 @@ def one_program(ctx, prog, script, rng):
         return
     if ex.reject:
         return
+    symbols_image = list(symbols)
     try:
         G = tools.symbols_to_graph(symbols)
     except Exception as e:
         ctx.violation('graph-raises', f'symbols_to_graph raised {type(e).__name__}: {e}', case)
         return
     ctx.count('graphs_compared')
+    if list(symbols) != symbols_image:
+        ctx.violation('argument-mutated', 'symbols_to_graph changed the symbol list it was given', case)
+        return
     eqs = gen.execution_order(prog)
     by_name = {s.name: s for s in symbols if s.type.name == 'ENDOGENOUS'}
     want_nodes = set()
